@@ -36,11 +36,12 @@ func verifyFunction(L *Loaded, DB *SpecDB, fn *ssa.Function, spec *FuncSpec, opt
 		}
 	}()
 	arrays := map[string]string{}
+	loopMods := map[string]map[string]bool{}
 	var x *Exec
-	for pass := 1; pass <= 4; pass++ {
+	for pass := 1; pass <= 8; pass++ {
 		x = &Exec{L: L, DB: DB, smt: newSMT(), arrays: arrays, notes: map[string]int{}, assumed: map[string]int{},
 			typeIDs: map[string]int{}, typeOf: map[int]types.Type{}, sweep: opts.sweep || (spec != nil && spec.Sweep), fnKey: funcKey(fn), covers: opts.covers,
-			globalsInit: map[string]bool{}}
+			globalsInit: map[string]bool{}, loopMods: loopMods}
 		if spec != nil {
 			for _, s := range spec.Sites {
 				s.matched = 0
